@@ -56,7 +56,7 @@ Proof. intros [Hv [Hn [Hr1 Hr2]]] Ec. unfold name_taken in Ec. apply orb_false_e
   - intros x Hx. apply in_app_or in Hx. destruct Hx as [Hx|[Hx|[]]]; [exact (Hr2 x Hx)|subst x; exact E2]. Qed.
 
 Lemma scope_update_scopeinv p un s u prefix s' : scope_update p un s u prefix = inl s' -> ScopeInv s -> ScopeInv s'.
-Proof. apply (CompilePres.scope_update_inv ScopeInv).
+Proof. apply (CompilePres.scope_update_inv_leaf ScopeInv).
   - intros s0 v n s1 H Hs. exact (proj1 (set_var_inv s0 v n s1 H Hs)).
   - intros s0 w n s1 H Hs. exact (proj1 (set_node_inv s0 w n s1 H Hs)).
   - intros s0 c H. exact H.
@@ -66,7 +66,7 @@ Proof. apply (CompilePres.scope_update_inv ScopeInv).
 Theorem compile_inv p un args_of own_of fbuild : forall fuel s g prefix is_main mg s' rq fs,
   compile p un args_of own_of fbuild fuel s g prefix is_main = inl (mg, s', rq, fs) -> ScopeInv s -> ScopeInv s'.
 Proof.
-  apply (CompilePres.compile_inv ScopeInv).
+  apply (CompilePres.compile_inv_leaf ScopeInv).
   - intros s v n s' H Hs. exact (proj1 (set_var_inv s v n s' H Hs)).
   - intros s u n s' H Hs. exact (proj1 (set_node_inv s u n s' H Hs)).
   - intros s c H. exact H.
